@@ -103,7 +103,8 @@ RepSites(S, FF, CC) ==
 
 AllCls == {"H0", "H1", "H2", "H3", "FE", "PL", "FI", "IX", "FC", "Z"}
 TypeVals == {"0", "1", "2", "3", "4", "255"}
-LenVals  == {"0", "1", "len-1", "len+1", "beyond", "maxentry", "maxentry+1", "u32max"}
+LenVals  == {"0", "1", "len-1", "len+1", "beyond", "maxentry", "maxentry+1", "u32max",
+             "u32wrap8", "u32wrap16", "i32max", "i32min"}     \* lengths at which 32-bit offset arithmetic wraps / changes sign
 IdxVals  == {"zero", "inhdr", "beyond", "misaligned", "commit", "self", "next", "u32max"}
 ISVals   == {"zero", "inhdr", "beyond", "misaligned", "minus8", "plus4", "eof-2", "u64max", "i63"}
 MetaKinds == {"truncated", "wrongtype", "wrongtype2", "negative", "hugenext", "overflownext", "unsorted",
